@@ -33,6 +33,7 @@ KNOWN_CLASSES = {
     "int.beyond-long.xer": lambda f, s, used: s == "xer" and "int.beyond-long" in f,
     "real.basic-xer-precision": lambda f, s, used: False,
     "enum.addition-below-root.uper": lambda f, s, used: s == "uper" and "enum.addition-below-root" in f,
+    "int.ext-root-nonnegative.negative-value": lambda f, s, used: "int.negative-vs-unsigned-ext-root" in f,
 }
 
 
